@@ -206,7 +206,7 @@ func genE2E(r *Rng, i int) *E2ECase {
 	return ec
 }
 
-// corpus: the witnesses of the _refuted theorems of coq/props/C02.v
+// corpus: the witnesses of the _refuted theorems of coq/props/C02.v (a-f), and the MinInt64 edge of the repaired lower bound (g)
 func corpus() []Replay {
 	rep := func(v int64, n int) []int64 {
 		o := make([]int64, n)
@@ -216,6 +216,8 @@ func corpus() []Replay {
 		return o
 	}
 	var out []Replay
+	// (a)-(f) are the witnesses of the theorems in coq/props/C02.v; (a), (b), (d), (e) were known findings until the
+	// repairs C02-lower-bound, C02-zero-unset, C02-open-lower-bound and now check the repaired behaviour.
 	// (a) equal-timestamp run across a sparse-index point, lower bound equal to it
 	out = append(out, Replay{Kind: "e2e", E2E: &E2ECase{Stream: "mono", Ops: []E2EOp{
 		{K: "batch", Ts: append(rep(10, 249), 20)}, {K: "batch", Ts: rep(20, 250)},
@@ -241,6 +243,14 @@ func corpus() []Replay {
 	out = append(out, Replay{Kind: "e2e", E2E: &E2ECase{Stream: "dropwrite", Ops: []E2EOp{
 		{K: "batch", Ts: rep(100, 300)}, {K: "drop"}, {K: "batch", Ts: rep(200, 10)},
 		{K: "read", O1: i64p(100), O2: i64p(150)}, {K: "serve"}, {K: "read", O1: i64p(100), O2: i64p(150)}}}})
+	// (g) the smallest timestamp in the hull: the lower bound (asked as t1-1 since the repair of (a)) must not be asked
+	// as MinInt64-1; an open lower bound is MinInt64 since the repair of (d). The answer is complete either way; a
+	// wrapped request shows as a rebuild request in the queue (K).
+	const minI64 = -9223372036854775808
+	out = append(out, Replay{Kind: "e2e", E2E: &E2ECase{Stream: "extreme", Ops: []E2EOp{
+		{K: "batch", Ts: append(rep(minI64, 249), minI64+1)}, {K: "batch", Ts: append(rep(minI64+1, 249), -5)},
+		{K: "read", O2: i64p(0)}, {K: "read", O1: i64p(minI64), O2: i64p(0)}, {K: "read", O1: i64p(minI64 + 1), O2: i64p(-5)},
+		{K: "read", O2: i64p(minI64)}}}})
 	return out
 }
 
